@@ -7,6 +7,10 @@
 use hyeong::number::big_number::BigNum;
 use hyeong::number::num::Num;
 use hyeong::core::area::{calc, Area};
+use hyeong::core::code::UnOptCode;
+use hyeong::core::execute::execute_one;
+use hyeong::core::state::{State, UnOptState};
+use hyeong::util::io::{CustomReader, CustomWriter};
 use std::cmp::Ordering;
 use std::io::{self, BufRead, Write};
 
@@ -123,6 +127,50 @@ fn run(f: &[String]) -> String {
                 let mut k = 0usize;
                 let r = calc(&a, count, || { let v = if k < vals.len() { vals[k].clone() } else { Num::nan() }; k += 1; Ok(v) });
                 match r { Ok(t) => format!("{} {}", t, k), Err(_) => "ERR".to_string() }
+            }
+            "exec.steps" => {
+                // exec.steps \t <cmd>;<cmd>;... \t <init stacks: idx=v v v|idx=..> \t <max steps>
+                //   cmd = type,hangul,dot,<area tree tokens space separated>
+                let mut st = UnOptState::new();
+                for c in f[1].split(';') {
+                    let p: Vec<&str> = c.splitn(4, ',').collect();
+                    let tt: Vec<&str> = p[3].split(' ').collect();
+                    let a = tree(&mut tt.iter());
+                    st.push_code(UnOptCode::new(p[0].parse().unwrap(), p[1].parse().unwrap(), p[2].parse().unwrap(), (0, 0), a, String::new()));
+                }
+                let ncode = f[1].split(';').count();
+                if !f[2].is_empty() {
+                    for part in f[2].split('|') {
+                        let mut kv = part.splitn(2, '=');
+                        let idx: usize = kv.next().unwrap().parse().unwrap();
+                        for v in kv.next().unwrap().split(' ').filter(|x| !x.is_empty()) {
+                            st.push_stack(idx, num(v));
+                        }
+                    }
+                }
+                let max: usize = f[3].parse().unwrap();
+                let mut ipt = CustomReader::new(String::new());
+                let mut o = CustomWriter::new(|_| Ok(()));
+                let mut e = CustomWriter::new(|_| Ok(()));
+                let mut loc = 0usize;
+                let mut steps = 0usize;
+                while loc < ncode && steps < max {
+                    let (s2, l2) = execute_one(&mut ipt, &mut o, &mut e, st, loc).unwrap();
+                    st = s2;
+                    loc = l2;
+                    steps += 1;
+                }
+                let mut idxs = st.get_all_stack_index();
+                idxs.sort();
+                let mut out = format!("loc={} cur={}", loc, st.current_stack());
+                for i in idxs {
+                    let stack = st.get_stack(i).clone();
+                    if !stack.is_empty() {
+                        out.push_str(&format!(" |{}=", i));
+                        out.push_str(&stack.iter().map(|x| x.to_string()).collect::<Vec<_>>().join(" "));
+                    }
+                }
+                out
             }
             "num.roundtrip" => { let a = num(f[1]); let s = a.to_string(); let b = Num::from_string(s.clone()); format!("{} {}", s, (a.is_nan() && b.is_nan()) || a == b) }
             _ => "ERR unknown op".to_string(),
